@@ -5,6 +5,7 @@ mod jtree;
 mod prom;
 mod c22;
 mod c18;
+mod c21;
 
 fn run(name: &str, ctx: &mut rvcore::Ctx) -> bool {
     match name {
@@ -13,6 +14,8 @@ fn run(name: &str, ctx: &mut rvcore::Ctx) -> bool {
         "c22m" => c22::run_c22m(ctx),
         "c18" => c18::run_c18(ctx),
         "c18h" => c18::run_c18h(ctx),
+        "c21" => c21::run_c21(ctx),
+        "c21h" => c21::run_c21h(ctx),
         _ => return false
     }
     true
